@@ -70,6 +70,9 @@ func VerifResp_Lifecycle() {
 	if verifrt.Param("DELAYFINISH", 1) == 1 {
 		e.DelayFinish = verifrt.Choose("executor-slow-to-report-finish", 2) == 1
 	}
+	if verifrt.Param("DELAYSTART", 0) == 1 {
+		e.DelayStart = verifrt.Choose("worker-slow-to-start-task", 2) == 1
+	}
 	pA := peer.ID("peerA")
 	peers := []peer.ID{pA}
 	sent := make([]bool, nreq)
